@@ -192,6 +192,9 @@ def h_array(ip, st, args, kw, node):
         return Tup(x.items, 'vec')
     if isinstance(x, Poly) and x.const_value() is not None and 'dtype' not in kw:
         return x
+    if isinstance(x, Poly) and x.single_atom() is not None and x.single_atom()[0] == 'attr' and x.single_atom()[2] == 'shape' \
+            and 'dtype' not in kw and len(args) == 1:
+        return x            # np.array(a.shape): the same numbers (a shape tuple cannot be written through)
     dt = kw.get('dtype', args[1] if len(args) > 1 else None)
     if dt is not None and dt != NONE:
         return app('copy', app('cast', P(x), dt))      # a new array of another type
